@@ -255,7 +255,7 @@ type c27Runner struct {
 	nMuts int
 }
 
-func bit(b bool) int {
+func c27Bit(b bool) int {
 	if b {
 		return 1
 	}
@@ -270,7 +270,7 @@ func (c *c27Runner) oracle(e *auditlog.Entry) string {
 		vred = c.keys.edVer.Verify(g.MerkleRootHash, g.SignatureEd25519)
 		vrml = c.keys.mlVer.Verify(g.MerkleRootHash, g.SignatureMlDsa87)
 	}
-	return fmt.Sprintf("calc=%s ved=%d vred=%d vrml=%d", c27Calc(e), bit(ved), bit(vred), bit(vrml))
+	return fmt.Sprintf("calc=%s ved=%d vred=%d vrml=%d", c27Calc(e), c27Bit(ved), c27Bit(vred), c27Bit(vrml))
 }
 
 func c27Calc(e *auditlog.Entry) (s string) {
@@ -304,7 +304,7 @@ func (c *c27Runner) verdicts(log []*auditlog.Entry, idx []int, checkRT bool) str
 	return res
 }
 
-func identity(n int) []int {
+func c27Identity(n int) []int {
 	idx := make([]int, n)
 	for i := range idx {
 		idx[i] = i
@@ -377,7 +377,7 @@ func (c *c27Runner) change(pos int, sets [][2]string, raw [][]byte) {
 		}
 	}
 	log[pos] = e
-	idx := identity(len(log))
+	idx := c27Identity(len(log))
 	idx[pos] = -1
 	// the round-trip check applies to entries a writer of the current version can produce
 	checkRT := e.Version == auditlog.CurrentVersion && e.Type == c.base[pos].Type
@@ -397,7 +397,7 @@ func (c *c27Runner) structural(kind string, args string, log []*auditlog.Entry, 
 	c.nMuts++
 }
 
-func insertAt[T any](xs []T, i int, x T) []T {
+func c27InsertAt[T any](xs []T, i int, x T) []T {
 	out := make([]T, 0, len(xs)+1)
 	out = append(out, xs[:i]...)
 	out = append(out, x)
@@ -431,8 +431,8 @@ func (c *c27Runner) forge(r *verifx.Rng, at int) {
 	}
 	e.Hash = e.CalculateHash()
 	e.SignatureEd25519 = ed25519.Sign(c.keys.foreignEd, e.Hash)
-	log := insertAt(c.base, at, e)
-	idx := insertAt(identity(len(c.base)), at, -1)
+	log := c27InsertAt(c.base, at, e)
+	idx := c27InsertAt(c27Identity(len(c.base)), at, -1)
 	c.structural("forge", fmt.Sprintf("%d %s", at, verifx.AuditLine(e)), log, idx, c.oracle(e))
 }
 
@@ -461,13 +461,13 @@ func (c *c27Runner) catalogue(r *verifx.Rng, positions []int) {
 		// delete
 		{
 			log := append(append([]*auditlog.Entry(nil), c.base[:pos]...), c.base[pos+1:]...)
-			idx := append(identity(pos), identity(n)[pos+1:]...)
+			idx := append(c27Identity(pos), c27Identity(n)[pos+1:]...)
 			c.structural("del", fmt.Sprint(pos), log, idx, "")
 		}
 		// duplicate in place
 		{
-			log := insertAt(c.base, pos+1, c.base[pos])
-			idx := insertAt(identity(n), pos+1, pos)
+			log := c27InsertAt(c.base, pos+1, c.base[pos])
+			idx := c27InsertAt(c27Identity(n), pos+1, pos)
 			c.structural("cpy", fmt.Sprintf("%d %d", pos+1, pos), log, idx, "")
 		}
 		// insert a copy of a distant entry here
@@ -476,14 +476,14 @@ func (c *c27Runner) catalogue(r *verifx.Rng, positions []int) {
 			for src == pos || src+1 == pos {
 				src = r.Intn(n)
 			}
-			log := insertAt(c.base, pos, c.base[src])
-			idx := insertAt(identity(n), pos, src)
+			log := c27InsertAt(c.base, pos, c.base[src])
+			idx := c27InsertAt(c27Identity(n), pos, src)
 			c.structural("cpy", fmt.Sprintf("%d %d", pos, src), log, idx, "")
 		}
 		// swap adjacent
 		if pos+1 < n {
 			log := append([]*auditlog.Entry(nil), c.base...)
-			idx := identity(n)
+			idx := c27Identity(n)
 			log[pos], log[pos+1] = log[pos+1], log[pos]
 			idx[pos], idx[pos+1] = idx[pos+1], idx[pos]
 			c.structural("swp", fmt.Sprintf("%d %d", pos, pos+1), log, idx, "")
@@ -495,7 +495,7 @@ func (c *c27Runner) catalogue(r *verifx.Rng, positions []int) {
 				j = r.Intn(n)
 			}
 			log := append([]*auditlog.Entry(nil), c.base...)
-			idx := identity(n)
+			idx := c27Identity(n)
 			log[pos], log[j] = log[j], log[pos]
 			idx[pos], idx[j] = idx[j], idx[pos]
 			a, b := pos, j
@@ -507,11 +507,11 @@ func (c *c27Runner) catalogue(r *verifx.Rng, positions []int) {
 		// insert a forged entry
 		c.forge(r, pos)
 		// truncate: keep the first pos entries
-		c.structural("trn", fmt.Sprint(pos), c.base[:pos], identity(pos), "")
+		c.structural("trn", fmt.Sprint(pos), c.base[:pos], c27Identity(pos), "")
 	}
 	// append a forged entry at the very end; cut nothing
 	c.forge(r, n)
-	c.structural("trn", fmt.Sprint(n), c.base, identity(n), "")
+	c.structural("trn", fmt.Sprint(n), c.base, c27Identity(n), "")
 }
 
 func runC27(args []string) {
@@ -541,7 +541,7 @@ func runC27(args []string) {
 		}()
 		out.End()
 	}
-	all := func(n int, _ *verifx.Rng) []int { return identity(n) }
+	all := func(n int, _ *verifx.Rng) []int { return c27Identity(n) }
 
 	// ---- directed 0: the copy operations (witness of the unhashed copy source)
 	src := verifx.AuditArgs{Bucket: "dst-bucket", Key: "report.pdf", SrcBucket: "src-bucket", SrcKey: "secret/plan.pdf", UploadID: "up-1", Part: 3}
